@@ -243,11 +243,11 @@ theorem struct1_all : (s : Stmt) → FragT s = true → Struct1 s
     exact struct_if c t e h.1.1 (structs_all t h.1.2) (structs_all e h.2)
   | .repeatWhile c b, h => by
     simp only [FragT, Bool.and_eq_true] at h
-    exact struct_while c b h.1 (structs_all b h.2)
+    exact struct_while c b h.1.1 (structs_all b h.2)
   | .repeatWith (.var .loc v) a b down body, h => by
     simp only [FragT, Bool.and_eq_true] at h
     exact struct_with v a b down body h.1.1.2 h.1.2 (structs_all body h.2)
-  | .set lv v, h => struct1_simple _ (by simpa [FragT] using h) (by intros; simp) (by intros; simp) (by intros; simp)
+  | .set lv v, h => struct1_simple _ (by simp only [FragT, Bool.and_eq_true] at h; exact h.1) (by intros; simp) (by intros; simp) (by intros; simp)
   | .call f as, h => struct1_simple _ (by simpa [FragT] using h) (by intros; simp) (by intros; simp) (by intros; simp)
   | .exit, _ => struct1_simple _ rfl (by intros; simp) (by intros; simp) (by intros; simp)
   | .put .., h => by simp [FragT] at h
